@@ -77,13 +77,14 @@ def check(case, cfg):
     vs = []
     got = [[case.rank[p.name] for p in o] for o in out]
     outcomes = [[case.rank[p.name] for p in o] for o in singles]
+    # outcomes are allocations (sets of projects): the same projects in another order are the same outcome
     distinct = []
     for o in outcomes:
-        if o not in distinct:
+        if all(set(o) != set(d) for d in distinct):
             distinct.append(o)
     # every returned allocation is the unmodified outcome of one of the rules
     for g in got:
-        if g not in distinct:
+        if g not in outcomes:
             vs.append(violation("a returned allocation is not the outcome of any compared rule", case, cfg, impl=g, expected=distinct, sig=dict(sig, clause="subset")))
     names = case.names
 
@@ -129,12 +130,12 @@ def run(ctx, n=None, compare=True):
             if nd >= 2:
                 ctx.nontrivial.add(case.key() + json.dumps(cfg, sort_keys=True))
             if compare:
-                rtok = "|".join(".".join(str(i) for i in o) for o in outcomes)
+                rtok = "|".join(".".join(str(i) for i in sorted(o)) for o in outcomes)
                 c2 = {"sat": cfg["sat"]}
                 stok = rules.sat_tokens(built, c2, need_setfn=True)
                 line = f"compose kind={cfg['kind']} {case.enc_common(built.entries(), built.enum())} R={rtok} {stok}"
                 lines.append(line)
-                info.append(("ok " + "|".join(",".join(str(i) for i in o) for o in got), case, cfg))
+                info.append(("ok " + "|".join(",".join(str(i) for i in sorted(o)) for o in got), case, cfg))
     history_stream(ctx, ctx.scale(400, 3000))
     if compare and lines:
         res = core.run_driver(lines)
